@@ -43,8 +43,24 @@ man = {
     },
     "engines": [
         {"name": "E1 product sweep", "path": "vf/engine/product.py",
-         "serves_properties": [p for p in ALL if registry.CHECKS.get(p, {}).get("engine", "").startswith("E1")],
-         "kind_free_text": "exhaustive mixed-radix product enumeration on the real classes, fork pool"},
+         "serves_properties": [p for p in ALL if "E1" in registry.CHECKS.get(p, {}).get("engine", "")],
+         "kind_free_text": "exhaustive mixed-radix product enumeration on the real classes; every task in a "
+                           "fresh fork; v3.0/v3.1 twin evaluation; task-level replay"},
+        {"name": "E2 rewrite BFS", "path": "vf/engine/rewrite.py",
+         "serves_properties": [p for p in ALL if "E2" in registry.CHECKS.get(p, {}).get("engine", "")],
+         "kind_free_text": "level-synchronous BFS over string rewrite graphs, dedup on the string"},
+        {"name": "E3 operation-sequence exploration", "path": "vf/engine/opseq.py",
+         "serves_properties": [p for p in ALL if "E3" in registry.CHECKS.get(p, {}).get("engine", "")],
+         "kind_free_text": "BFS over operation histories on real objects / processes with canonical state "
+                           "snapshots; exhaustive enumeration of answer scripts, command lines, token texts"},
+        {"name": "E4 thread schedule explorer", "path": "vf/engine/sched.py",
+         "serves_properties": ["C19"],
+         "kind_free_text": "sys.settrace + baton scheduler for real threads; iterative preemption bounding at "
+                           "line / call / opcode granularity; warm, cold-process and shared-object groups"},
+        {"name": "E5 configuration matrix", "path": "vf/engine/config.py",
+         "serves_properties": ["C19", "C20"],
+         "kind_free_text": "self-enumerating probe program under interpreter x hash seed x decimal context; "
+                           "chunk digests compared with the reference configuration"},
     ],
     "checks": checks,
     "notes": "All checks are bounded exhaustive explorations on the real code (explicit-state model "
